@@ -6,70 +6,83 @@ import JP.Lemmas.LocDefs
 import JP.Lemmas.Query
 import JP.Lemmas.Pointer
 import JP.Lemmas.Patch
+import JP.Lemmas.LocateAux1
+import JP.Lemmas.LocateAux2
+import JP.Lemmas.LocateAux3
+import JP.Lemmas.LocateAux4
+import JP.Lemmas.LocateAux5
+import JP.Lemmas.LocateAux6
+import JP.Lemmas.LocateAux7
 namespace JP.Lemmas
 open JP JP.Query JP.Pointer JP.Patch
 
-theorem match_located (rx : Rx) (segs : List Seg) (doc extra : J)
+/- `hwf` (unique member names, as `json.loads` produces) is needed: with duplicate member names a
+   location `loc` is ambiguous (`locValue` reads the first member of that name, a wildcard visits all). -/
+theorem match_located (rx : Rx) (segs : List Seg) (doc extra : J) (hwf : doc.wf = true)
     (hp : plainSegs segs = true) (hw : Rfc.wellFormedSegs segs = true) :
     ∀ n ∈ finditer rx ⟨segs, false⟩ doc extra,
-      ∃ loc, n.parts = locParts loc ∧ n.path = Rfc.normalizedPath loc ∧ locValue doc loc = some n.val := by
-  sorry
+      ∃ loc, n.parts = locParts loc ∧ n.path = Rfc.normalizedPath loc ∧ locValue doc loc = some n.val :=
+  match_located_wf rx segs doc extra hwf hp hw
 
 theorem normalizedPath_injective (a b : List Rfc.LStep)
-    (h : Rfc.normalizedPath a = Rfc.normalizedPath b) : a = b := by
-  sorry
+    (h : Rfc.normalizedPath a = Rfc.normalizedPath b) : a = b :=
+  normalizedPath_inj h
 
-theorem locParts_injective (a b : List Rfc.LStep) (h : locParts a = locParts b) : a = b := by
-  sorry
+theorem locParts_injective (a b : List Rfc.LStep) (h : locParts a = locParts b) : a = b :=
+  locParts_inj h
 
 theorem parent_location (doc v : J) (loc : List Rfc.LStep) (s : Rfc.LStep)
     (h : locValue doc (loc ++ [s]) = some v) :
-    ∃ p, locValue doc loc = some p ∧ p.isContainer = true ∧ locValue p [s] = some v := by
-  sorry
+    ∃ p, locValue doc loc = some p ∧ p.isContainer = true ∧ locValue p [s] = some v :=
+  parent_location_aux doc v loc s h
 
 theorem pointer_of_location (doc v : J) (loc : List Rfc.LStep) (h : locValue doc loc = some v) :
-    resolveParts doc (locParts loc) = .ok v := by
-  sorry
+    resolveParts doc (locParts loc) = .ok v :=
+  pointer_of_location_aux doc v loc h
 
 theorem encode_locParts (loc : List Rfc.LStep) :
     encode (locParts loc) = spell (loc.map (fun s => match s with | .name k => Step.name k | .index n => Step.index n)) := by
-  sorry
+  rw [encode_locParts_aux]
+  congr 1
 
 theorem pointer_string_of_location (dec : EscDec) (ue : Bool) (doc v : J) (loc : List Rfc.LStep)
     (h : locValue doc loc = some v)
     (hr : ∀ s ∈ loc, StepInRange (match s with | .name k => Step.name k | .index n => Step.index n))
     (hb : ue = true → (encode (locParts loc)).contains '\\' = false) :
     resolveText dec ue (encode (locParts loc)) doc = .ok v := by
-  sorry
+  refine pointer_string_of_location_aux dec ue doc v loc h ?_ hb
+  intro s hs
+  rw [← ptrStep_eq]
+  exact hr s hs
 
 theorem edit_test (doc v : J) (loc : List Rfc.LStep) (hwf : doc.wf = true)
     (h : locValue doc loc = some v) :
-    Patch.apply [.test (locParts loc) v] doc = .ok doc := by
-  sorry
+    Patch.apply [.test (locParts loc) v] doc = .ok doc :=
+  edit_test_aux doc v loc hwf h
 
 theorem edit_replace (doc v w : J) (loc : List Rfc.LStep) (h : locValue doc loc = some v) :
-    ∃ d, setAt doc loc w = some d ∧ Patch.apply [.replace (locParts loc) w] doc = .ok d := by
-  sorry
+    ∃ d, setAt doc loc w = some d ∧ Patch.apply [.replace (locParts loc) w] doc = .ok d :=
+  edit_replace_aux doc v w loc h
 
 theorem setAt_spec (doc w d : J) (loc : List Rfc.LStep) (h : setAt doc loc w = some d) :
-    locValue d loc = some w ∧ ∀ loc', ¬ Related loc loc' → locValue d loc' = locValue doc loc' := by
-  sorry
+    locValue d loc = some w ∧ ∀ loc', ¬ Related loc loc' → locValue d loc' = locValue doc loc' :=
+  setAt_spec_aux doc w d loc h
 
 theorem edit_remove (doc v : J) (loc : List Rfc.LStep) (hne : loc ≠ []) (h : locValue doc loc = some v) :
-    ∃ d, eraseAt doc loc = some d ∧ Patch.apply [.remove (locParts loc)] doc = .ok d := by
-  sorry
+    ∃ d, eraseAt doc loc = some d ∧ Patch.apply [.remove (locParts loc)] doc = .ok d :=
+  edit_remove_aux doc v loc hne h
 
 theorem eraseAt_member_spec (doc d : J) (loc : List Rfc.LStep) (k : Str)
     (h : eraseAt doc (loc ++ [.name k]) = some d) (hwf : doc.wf = true) :
     locValue d (loc ++ [.name k]) = none ∧
-    ∀ loc', ¬ (loc ++ [.name k]) <+: loc' → locValue d loc' = locValue doc loc' := by
-  sorry
+    ∀ loc', ¬ Related (loc ++ [.name k]) loc' → locValue d loc' = locValue doc loc' :=
+  eraseAt_member_spec_aux doc d loc k h hwf
 
 theorem eraseAt_element_spec (doc d : J) (loc : List Rfc.LStep) (n : Nat)
     (h : eraseAt doc (loc ++ [.index n]) = some d) :
-    (∀ loc', ¬ loc <+: loc' → locValue d loc' = locValue doc loc') ∧
+    (∀ loc', ¬ Related loc loc' → locValue d loc' = locValue doc loc') ∧
     (∀ m rest, m < n → locValue d (loc ++ .index m :: rest) = locValue doc (loc ++ .index m :: rest)) ∧
-    (∀ m rest, n ≤ m → locValue d (loc ++ .index m :: rest) = locValue doc (loc ++ .index (m + 1) :: rest)) := by
-  sorry
+    (∀ m rest, n ≤ m → locValue d (loc ++ .index m :: rest) = locValue doc (loc ++ .index (m + 1) :: rest)) :=
+  eraseAt_element_spec_aux doc d loc n h
 
 end JP.Lemmas
